@@ -317,7 +317,10 @@ def refract(n, nprime, S, r):
     # broadcast the square root to 2D, so that fewer very expensive sqrt ops are done
     # then, in the second term, broadcast cosI for compatability with S and r
     # since it is needed there
-    first_term = np.sqrt(1 - musq * (1 - cosIsq))[:, np.newaxis] * r
+    # r has z=+1 whichever way the ray travels; the refracted ray continues
+    # to the far side of the surface, so cosI' takes the sign of cosI
+    cosIprime = np.copysign(np.sqrt(1 - musq * (1 - cosIsq)), cosI)
+    first_term = cosIprime[:, np.newaxis] * r
     second_term = mu * (S - cosI[:, np.newaxis] * r)
     return first_term + second_term
 
